@@ -63,6 +63,17 @@ def gen_cases(tier: str, seed: int):
                 dd['restart_after_kill'] = {'delay': 2.0, 'max': 1}
                 dd['timeline'] = [op for op in dd['timeline'] if op[1] not in ('stop_wait',) and not (op[1] == 'start' and op[2] != 'op1')]
                 cases.append({'name': f"{d['name']}-{mode}{k}", 'desc': dd})
+    # a pause by a higher-priority peer begins while an update cycle is open (a slow attempt has just failed and is recorded) and an event
+    # of the object waits behind it: nothing of that cycle may be left on the object in the end (found by the thorough tier, seed 10)
+    for ct in (0.5, 1.0, 2.0):
+        for storage, prefix, resources in (('smart', 'op2.example.org', 'kex_s'), ('default', None, 'kex'), ('status', None, 'kex_s')):
+            cases.append({'name': f'pause-under-open-cycle-{storage}-ct{ct}', 'desc': {
+                'seed': 1, 'handlers': [{'kind': 'create', 'id': 'c1'}, {'kind': 'update', 'id': 'u1', 'script': [['slow', 1.5, ['temp', 1]], ['ok']]}],
+                'storage': storage, 'prefix': prefix, 'resources': resources,
+                'settings': {'queueing__idle_timeout': 5.0, 'persistence__consistency_timeout': ct, 'execution__default_backoff': 1.5},
+                'timeline': [[0.5, 'create', 'o0', {'spec': {'x': 0}}], [2.0, 'start', 'op1'], [9.7, 'edit', 'o0', {'spec': {'x': 2}}], [10.4, 'edit', 'o0', {'status': {'foreign': 2}}],
+                             [11.044, 'peer', 'boss', 100, 60], [15.044, 'unpeer', 'boss']],
+                'quiet': 25.0, 'horizon': 600.0, 'peering': {'name': 'default'}}})
     n = 600 if tier == 'quick' else 25000
     for i in range(n):
         d = c02.random_desc(rng, i)
